@@ -92,7 +92,7 @@ def gen_cases(rng, tier):
         yield {"kind": "generic", "name": name, "sched_seed": rng.randrange(10 ** 6), "seed": rng.randrange(10 ** 9),
                "cs_kind": "finite" if name == "fifo-grid" else rng.choice(["mixed", "cont"]),
                "n_workers": rng.randint(2, 5), "max_events": rng.choice([60, 120]) if tier == "quick" else rng.choice([120, 300]),
-               "style": "distinct", "p_fail": rng.choice([0.05, 0.15, 0.3]), "max_t": rng.choice([9, 27]),
+               "style": "distinct", "p_fail": rng.choice([0.05, 0.15, 0.3]), "max_t": rng.choice([1, 2, 3]) if name.startswith("fifo-") else rng.choice([9, 27]),
                "extra": {"brackets": 1 if name == "hb-pasha" else (None if name in ("dehb", "sync-hb") else rng.choice([1, 2, 3]))},
                "modes": ["min", "max"]}
     # DEHB with few brackets and failures (suggest() hangs / raises: known findings); short watchdog
